@@ -12,7 +12,7 @@ RULE = ('generated programs: plain functions, methods decorated directly or thro
 EXHAUSTIVE = {'quick': False, 'thorough': False}
 ASSUMPTIONS = ['programs are real files (inspect.getsource works)', 'the description of each callable sent to the model is read with the same stdlib introspection the library uses (inspect.signature, getfullargspec, getsource, ismethod)']
 TRUSTED = ['CPython inspect / functools.wraps semantics']
-FINDINGS = [('stripped', 'strippedPositionalIsDeclaredDefaulted'), ('untruthful', 'bodyTextFlipsHeuristics')]
+FINDINGS = [('receiverNotNamedSelf', 'receiverNotNamedSelf'), ('stripped', 'strippedPositionalIsDeclaredDefaulted'), ('untruthful', 'bodyTextFlipsHeuristics')]
 
 
 def cases(rng, tier):
@@ -21,6 +21,7 @@ def cases(rng, tier):
     out += C.build_cases(rng, n // 2, calls_per=2, style=None, tag='c05b')
     out += C.build_cases(rng, n // 3, calls_per=2, style='posall', tag='c05c')
     out += C.scenario_cases(rng, n // 6, tag='c05sc') + C.scenario_cases(rng, n // 6, style='pos1', tag='c05sd')
+    out += C.receiver_cases(rng, 12 if tier == 'quick' else 48)       # the receiver by keyword / not called `self`
     # the call under test is made while another call of the same / a sibling callable is still running (recursion, re-entrancy)
     out += R.reentrant_cases(rng, n // 4, style='pos1', tag='c05re') + R.reentrant_cases(rng, n // 8, tag='c05rf')
     out += R.wrapsof_cases(rng, n // 10, style='pos1', tag='c05wo')      # a callable that took over the __dict__ of a decorated one (functools.wraps)
@@ -32,6 +33,9 @@ def search(rng, tier, near):
 
 
 run_impl = R.run_impl
+
+
+extra_coverage = C.T.with_trace_coverage()      # observed branch traces of the call layer (_calltrace_common)
 
 
 def judge(case, impl, model):
@@ -59,3 +63,6 @@ def twins(case):
 
 import _checker_common as _K
 export_state, import_state = _K.export_state, _K.import_state      # the name table travels with replays / amplified runs
+
+
+same_outcome = C.same_outcome      # amplified run: `trace` / `world` are diagnostics of sampled executions
